@@ -376,7 +376,8 @@ class TCLLHRatio(
             rss=rss,
             paramset=self._pmm.global_paramset,
             func=negative_llhratio_func_nr1d_ns,
-            args=(tl,))
+            args=(tl,),
+            kwargs={'ns_pidx': ns_pidx})
         log_lambda_max = -fmin
 
         return (log_lambda_max, fitparam_values, status)
